@@ -1,26 +1,32 @@
 ID = "C14"
 LEVEL = "other"
 CONTRACT_MODULES = ["contracts.table_rect"]
-FUNCTIONS = ["Table._select_rows", "Table._select_cols", "Table._copy"]
+FUNCTIONS = ["Table._select_rows", "Table._select_cols", "Table._copy", "Table.__mul__", "Table.__add__", "Table._append_row@rect", "Table._concatenate_table@rect"]
 RAC = "rac/c14.py"
 RAC_BUDGET = {"quick": 60, "thorough": 600}
 DESIGN_REF = "DESIGN.md section 4, C14"
 TECHNIQUE = ("contract-based deductive verification of the class invariant Rect across the deriving methods every selection goes "
              "through (pyvc rect engine: column lists with object identity, dicts, numpy selection length; z3) + run-time contracts "
              "on exhaustive derivation chains with snapshots of every earlier table")
-TRUSTED = ["numpy: len(a[rows]) depends on rows and len(a) only; element-wise evaluation of column expressions (Table.__getitem__ with a string: assumed contract)",
+TRUSTED = ["numpy along the first axis: len(np.concatenate([a] * k)) == k * len(a) (ValueError for k <= 0), len(np.concatenate([a, b])) == len(a) + len(b) "
+           "or ValueError, len(np.r_[a, [x]]) == len(a) + 1", "numpy: len(a[rows]) depends on rows and len(a) only; element-wise evaluation of column expressions (Table.__getitem__ with a string: assumed contract)",
            "Table.__init__: the unchecked constructor stores its arguments as given, the checked one copies dict and list (assumed)",
            "Table.keys(exclude_columns=True) == set(_data) - set(_col_names) (assumed)", "z3 / cvc5"]
-ASSUMPTIONS = ["deriving itself changes nothing in the source; in-place cell/column writes on a derived table that shares ARRAYS with its "
+ASSUMPTIONS = ["_append_row / _concatenate_table: no claim when a column is missing in the row / numpy refuses a column half way (the loop "
+               "raises with columns of two lengths); t * num with a non-integer num is outside the contract",
+               "deriving itself changes nothing in the source; in-place cell/column writes on a derived table that shares ARRAYS with its "
                "source (row slices are numpy views, _copy/cols share column arrays) are outside the statement",
                "_select_cols may insert the index name into the list it is given (declared in its frame); cols[...] always passes a fresh list",
                "requested column names are distinct and are columns or expressions, not scalar entries"]
-BOUNDED = ["+, *, concatenate, transposition, _select (expression fallback with row views), the checked constructor's rejections, "
+BOUNDED = ["the module-level concatenate, transposition, _select (expression fallback with row views), the checked constructor's rejections, "
            "element-wise evaluation of column expressions: run-time only (all derivation chains of length <= 2 on tables of 0..4 rows)"]
-EXPLANATION = ("proved for _select_rows (behind rows[...], head, tail, reverse, unary minus), _select_cols (behind cols[...]) and _copy: "
+EXPLANATION = ("proved for t * num (__mul__: every listed column of a copy repeated num times), t1 + t2 (__add__: a copy of t1 concatenated in "
+               "place with t2, empty frame on both operands), _concatenate_table and _append_row (Rect with len1 + len2 / len + 1 rows, "
+               "same column list; tables with the same columns as sets), and for "
+               "_select_rows (behind rows[...], head, tail, reverse, unary minus), _select_cols (behind cols[...]) and _copy: "
                "Rect(self) implies Rect(result) with the expected common length, the same index column, the derived column list is a "
                "new list object (never the source's, never the caller's), scalar entries are carried over, and nothing reachable "
                "from the source table is modified")
-LEVEL_TEXT = ("Mixed: three deriving methods proved (34 obligations, z3), the others are run-time contract checks over exhaustive short "
+LEVEL_TEXT = ("Mixed: seven deriving methods proved (z3), the others are run-time contract checks over exhaustive short "
               "derivation chains. Never claimed as proof.")
 LEVEL_NOTE = "See TRUSTED / BOUNDED in the evidence file."
